@@ -41,6 +41,7 @@ FS_EPOCH = 1_500_000_000.0
 
 logging.getLogger("stepup.core.rpc").setLevel(logging.CRITICAL)
 logging.getLogger("asyncio").setLevel(logging.CRITICAL)
+logging.getLogger("stepup.core.builder").setLevel(logging.ERROR)
 warnings.filterwarnings("ignore", category=RuntimeWarning)
 # Coroutines of a killed director are dropped without being run to completion; their cleanup
 # clauses then complain about the closed loop when they are garbage-collected.
@@ -436,7 +437,17 @@ class Sim:
         # scheduler; otherwise reporter replies first, then the oldest gate.
         gs = [g for g in self.gates if not g.fut.done()]
         last = self.last_thread
-        gs.sort(key=lambda g: (0 if g.thread == last else 1, 0 if g.kind == "rep" else 1, g.seq))
+        policy = self.cfg.get("policy", "thread")
+        if policy == "thread":
+            gs.sort(key=lambda g: (0 if g.thread == last else 1, 0 if g.kind == "rep" else 1, g.seq))
+        elif policy == "fifo":
+            # oldest gate first (reporter replies before anything else): every runnable thread
+            # advances in turn, the most overlapped base schedule
+            gs.sort(key=lambda g: (0 if g.kind == "rep" else 1, g.seq))
+        elif policy == "lifo":
+            gs.sort(key=lambda g: (0 if g.kind == "rep" else 1, -g.seq))
+        else:
+            raise HarnessError(f"unknown policy {policy}")
         evs = list(gs)
         if self.env_events is not None:
             evs.extend(self.env_events(self))
